@@ -172,7 +172,7 @@ func checkC17(c *Ctx) {
 		if (ri.Pkg != pkgHTTP && ri.Pkg != pkgClient) || !strings.HasSuffix(ri.Suffix, ".go") {
 			continue
 		}
-		ex := c.Explore(ri.Fn, 1, 4000)
+		ex := c.ExploreT(ri.Fn, 4000)
 		for _, v := range ex.Variants {
 			for _, u := range v.Units {
 				fset, f, err := ParseUnit(u)
